@@ -69,6 +69,15 @@ def handleRace (args : List String) : String :=
     match fields ini with
     | ["init", ip, port, maxp, tcp] =>
       match ip.toNat?, port.toNat?, maxp.toNat?, ops.mapM parseOp, parseOp pk, parseOp api with
+      | some ip, some port, some maxp, some ops, some (.pkt a (.rtp ssrc seq ts m)), some (.pkt a2 (.rtp ssrc2 seq2 ts2 m2)) =>
+        -- a second receive() instead of an API call
+        let s0 := run (init ⟨ip, port⟩ maxp (tcp = "1")) ops
+        if s0.latchOn ∧ (s0.expected = 0 ∨ ssrc = s0.expected) ∧ (s0.expected = 0 ∨ ssrc2 = s0.expected) then
+          let bits := (sched.toList ++ "rsrsrsrsrsrsrsrsrsrs".toList).map (fun c => c == 'r')
+          let y := runSched2 (recvCrit a ssrc seq ts m) (recvCrit a2 ssrc2 seq2 ts2 m2)
+            { st := s0, r1 := .start, r2 := .start, b1 := false, b2 := false } bits
+          if rDone y.r1 ∧ rDone y.r2 then (showSt y.st "-" none).1 else "not-finished"
+        else "race-model-needs-latching-and-expected-ssrc-rtp"
       | some ip, some port, some maxp, some ops, some (.pkt a (.rtp ssrc seq ts m)), some apiOp =>
         match apiCrit apiOp with
         | some A =>
